@@ -43,7 +43,7 @@ NN_REPS = ("nn_dup", "nn_memalias", "nn_flat", "nn_nested", "nn_method_mixed", "
            "sib_multi_plainmid", "sib_multi_plainfirst")
 REPS = ("pure", "pure_nontensor", "pure_dup", "nn_dup", "nn_memalias", "em_memalias", "jit", "nn_flat", "nn_nested", "nn_method_mixed", "nn_tied",
         "em_flat", "em_container", "em_alias", "em_nn", "em_nn_reordered", "em_mixed",
-        "sib_single", "sib_single_nn", "sib_multi", "sib_multi_shared", "sib_multi_nn", "sib_multi_plainmid", "sib_multi_plainfirst", "dual_nn_em", "em_infmask")
+        "sib_single", "sib_single_nn", "sib_multi", "sib_multi_shared", "sib_multi_nn", "sib_multi_plainmid", "sib_multi_plainfirst", "dual_nn_em", "em_infmask", "em_alias_pairs", "em_infbound")
 
 
 _SCRIPTED = {}
@@ -235,6 +235,39 @@ def build(rep, core, nlead, eff, s):
             def getparamnames(self, methodname, prefix=""):
                 if methodname == "h":
                     return [prefix + "mask", prefix + "a", prefix + "b", prefix + "W"]
+                raise KeyError(methodname)
+        e = E(a, b, W)
+        return Built(e.h, (), [("e", e)], ())
+
+    if rep == "em_alias_pairs":
+        # a list of slots in which shared tensors come in pairs: [a, a, b, b, W] (a shared tensor first appears after another one was repeated)
+        class E(xitorch.EditableModule):
+            def __init__(self, a, b, W):
+                self.ws = [a, a, b, b, W]
+
+            def h(self, *lead):
+                return core(*lead, 0.25 * self.ws[0] + 0.75 * self.ws[1], 0.5 * (self.ws[2] + self.ws[3]), self.ws[4], s)
+
+            def getparamnames(self, methodname, prefix=""):
+                if methodname == "h":
+                    return [prefix + "ws[%d]" % i for i in range(5)]
+                raise KeyError(methodname)
+        e = E(a, b, W)
+        return Built(e.h, (), [("e", e)], ())
+
+    if rep == "em_infbound":
+        # a DIFFERENTIABLE tensor with infinite entries that the function handles gracefully (inactive upper bounds)
+        class E(xitorch.EditableModule):
+            def __init__(self, a, b, W):
+                self.a, self.b, self.W = a, b, W
+                self.ub = torch.full(tuple(a.shape), float("inf"), dtype=a.dtype).requires_grad_()
+
+            def h(self, *lead):
+                return core(*lead, torch.minimum(self.a, self.ub), self.b, self.W, s)
+
+            def getparamnames(self, methodname, prefix=""):
+                if methodname == "h":
+                    return [prefix + "ub", prefix + "a", prefix + "b", prefix + "W"]
                 raise KeyError(methodname)
         e = E(a, b, W)
         return Built(e.h, (), [("e", e)], ())
